@@ -119,8 +119,14 @@ func (s *stSess) open(n int, kv map[string]string) (string, error) {
 	mv.keep = kvInt(kv, "keep", 1)
 	mv.thr = kvInt(kv, "thr", 32)
 	mv.levels = kvInt(kv, "levels", 7)
-	mv.dir = scratchDir()
-	opt := stOptions(kv, mv.dir)
+	mv.inmem = kvInt(kv, "inmem", 0) != 0
+	var opt badger.Options
+	if mv.inmem {
+		opt = stOptions(kv, "").WithInMemory(true)
+	} else {
+		mv.dir = scratchDir()
+		opt = stOptions(kv, mv.dir)
+	}
 	var err error
 	if mv.managed {
 		mv.db, err = badger.OpenManaged(opt)
@@ -137,8 +143,8 @@ func (s *stSess) open(n int, kv map[string]string) (string, error) {
 	s.slots[n] = &stSlot{mv: mv, opt: opt, kv: kv}
 	s.cur = n
 	mc, ms, _ := badger.VerifLimits(mv.db)
-	return fmt.Sprintf("managed=%d keep=%d thr=%d inmem=0 levels=%d detect=1 tblsz=%d basesz=%d comp=%d blksz=%d now=%d maxcount=%d maxsize=%d vlogsz=%d",
-		b2i(mv.managed), mv.keep, mv.thr, mv.levels, kvInt(kv, "tblsz", 2<<20), kvInt(kv, "basesz", 10<<20), kvInt(kv, "comp", 0),
+	return fmt.Sprintf("managed=%d keep=%d thr=%d inmem=%d levels=%d detect=1 tblsz=%d basesz=%d comp=%d blksz=%d now=%d maxcount=%d maxsize=%d vlogsz=%d",
+		b2i(mv.managed), mv.keep, mv.thr, b2i(mv.inmem), mv.levels, kvInt(kv, "tblsz", 2<<20), kvInt(kv, "basesz", 10<<20), kvInt(kv, "comp", 0),
 		kvInt(kv, "blksz", 256), mv.now, mc, ms, 1<<20), nil
 }
 
@@ -2103,12 +2109,23 @@ func (g *stGen) backupParams() string {
 func (g *stGen) genBackup() {
 	g.backupObj = !g.managed && g.rng.Intn(3) == 0
 	src := g.dbParams()
+	// an InMemory destination (no value log: everything inline, the value-pointer bit the
+	// backup carries for values of a low-threshold on-disk source must be cleared on load)
+	inmemDst := g.rng.Intn(3) == 0
+	if inmemDst {
+		src = strings.Replace(strings.Replace(strings.Replace(src, "thr=64 ", "thr=16 ", 1), "thr=100000 ", "thr=16 ", 1), "thr=16 ", "thr=8 ", 1)
+		g.thr = 8
+	}
 	g.add("reset %s", src)
 	g.build(2 + g.rng.Intn(6))
 	g.add("backup buf=0 since=0 %s", g.backupParams())
 	// restore into a fresh DB (its own thresholds) and compare every read
 	dg := &stGen{rng: g.rng, managed: g.managed}
-	g.add("open 1 %s", dg.dbParams())
+	dst := dg.dbParams()
+	if inmemDst {
+		dst += " inmem=1"
+	}
+	g.add("open 1 %s", dst)
 	g.add("load buf=0")
 	g.add("cmp-restore src=0 dst=1 final=0")
 	chain := g.rng.Intn(3)
@@ -2147,7 +2164,7 @@ func (g *stGen) genBackup() {
 		g.add("load buf=%d", i)
 		g.add("cmp-restore src=0 dst=1 final=1")
 	}
-	if g.rng.Intn(2) == 0 {
+	if !inmemDst && g.rng.Intn(2) == 0 {
 		g.add("use 1")
 		g.add("reopen")
 		g.add("cmp-restore src=0 dst=1 final=1")
